@@ -9,6 +9,8 @@ package c09
 import (
 	"encoding/json"
 	"fmt"
+	"regexp"
+	"strconv"
 	"strings"
 	"testing"
 
@@ -240,8 +242,21 @@ func (f Fn) decl() string {
 		}
 		fmt.Fprintf(&sb, "func %sw%s(%s)%s {\n\tlit := %s\n\t_ = lit\n\treturn %s(%s)\n}\n\n", recv, f.Name, wps, rs, lit, target, strings.Join(args, ", "))
 	}
-	return sb.String()
+	src := sb.String()
+	for i := range f.Params {
+		if f.blank(i) && f.Name[len(f.Name)-1]%2 == 1 {
+			// beside blank parameters the named ones are called _0, _1, ...: identifiers like any other
+			// (numbered one ahead, so that a name can be the number of a blank parameter's position)
+			return paramName.ReplaceAllStringFunc(src, func(m string) string {
+				k, _ := strconv.Atoi(m[1:])
+				return fmt.Sprintf("_%d", (k+1)%len(f.Params))
+			})
+		}
+	}
+	return src
 }
+
+var paramName = regexp.MustCompile(`\bp(\d+)\b`)
 
 func genProg(rt *rapid.T) *Prog {
 	p := &Prog{}
